@@ -243,6 +243,14 @@ pub fn extra_workloads() -> Vec<Workload> {
             write_set: vec![],
         },
         Workload {
+            name: "D5-two-descriptor-registrations-at-once",
+            about: "(C18) two threads register descriptors for different kinds (and one replaces an existing one) at the same time: afterwards every one of them is in effect (a registry that is copied, changed and published in separate steps loses one)",
+            pre: vec![Exec("1 + 1"), SetReferenceDescriptor("y", "OLD")],
+            threads: vec![vec![SetBinaryDescriptor("-", "B")], vec![SetReferenceDescriptor("x", "R"), SetReferenceDescriptor("y", "NEW")]],
+            post: vec![Describe("x - y")],
+            write_set: vec![],
+        },
+        Workload {
             name: "D2-describe-vs-reference-descriptor",
             about: "(C18) describe() of references while another thread registers a reference descriptor",
             pre: vec![Exec("1 + 1")],
@@ -293,6 +301,14 @@ pub fn grouping_workloads() -> Vec<Workload> {
             pre: vec![Exec("1 + 1"), RegInfix("xo", 105, true, "O")],
             threads: vec![vec![Parse("a + b xo c == d"), Parse("a xo b xo c")], vec![RegInfix("xo", 105, true, "N")]],
             post: vec![Parse("a xo b xo c")],
+            write_set: vec![1],
+        },
+        Workload {
+            name: "G3-grouping-vs-registration-of-an-unrelated-operator",
+            about: "(C02) parses of built-in operators only, while another thread registers operators the programs do not contain, on a new level below and on a new level between the levels in use: the grouping of the built-ins never depends on what else is in the table",
+            pre: vec![Exec("1 + 1")],
+            threads: vec![vec![Parse("a - b + c"), Parse("a * b - c + d == e")], vec![RegInfix("lowop", 15, true, "L"), RegInfix("midop", 115, true, "M")]],
+            post: vec![Parse("a - b + c")],
             write_set: vec![1],
         },
     ]
